@@ -255,7 +255,6 @@ func main() {
 	for _, e := range engines {
 		rep.Engines = append(rep.Engines, "fuzz-"+e.name)
 	}
-	rep.Engines = append(rep.Engines, "fuzz-http-fwd")
 	sort.Strings(rep.Engines)
 	rep.Rule = "one case = one call of one network-facing entry point: socks5 *FromSlice / AppendFromReader / ConnAddrFromReader; ss2022 header parsers on plaintext; " +
 		"ss2022 UDP SessionInfo/NewUnpacker/UnpackInPlace and the client unpacker with real keys (valid seal of hostile plaintext, corrupted tag, garbage); direct/none/socks5 packet unpackers on relay-style buffers; " +
